@@ -1,16 +1,23 @@
 #!/usr/bin/env python3
-"""translator: regenerate coq/Gen/*.v from the Rust/Python sources of /repo (fails closed)."""
-import os, re, sys
+"""translator: regenerate coq/Gen/*.v from the Rust/Python sources of /repo (fails closed).
+Every translator/gen_*.py exposes generate(repo, outdir) and raises an exception whose class is
+named TranslateError when a source region no longer has the expected shape."""
+import importlib, os, sys
 
 def main():
     repo, out = sys.argv[1], sys.argv[2]
     os.makedirs(out, exist_ok=True)
-    import gen_consts
-    try:
-        gen_consts.generate(repo, out)
-    except gen_consts.TranslateError as e:
-        print("translator: " + str(e))
-        sys.exit(2)
+    here = os.path.dirname(os.path.abspath(__file__))
+    failed = False
+    for f in sorted(os.listdir(here)):
+        if f.startswith("gen_") and f.endswith(".py"):
+            mod = importlib.import_module(f[:-3])
+            try:
+                mod.generate(repo, out)
+            except Exception as e:  # fail closed: any failure is a broken tie
+                print("translator (%s): %s: %s" % (f, type(e).__name__, e))
+                failed = True
+    sys.exit(2 if failed else 0)
 
 if __name__ == "__main__":
     sys.path.insert(0, os.path.dirname(os.path.abspath(__file__)))
